@@ -14,6 +14,11 @@ let () =
     | "C09" -> C13.run_c09
     | "C11" -> C13.run_c11
     | "C10" -> C13.run_c10
+    | "C01" -> C01.run_c01
+    | "DEBUG" -> C01.debug_abstract
+    | "C08" -> C01.run_c08
+    | "C12" -> C01.run_c12
+    | "C20" -> C01.run_c20
     | _ -> prerr_endline ("unknown property " ^ prop); exit 2 in
   List.iter
     (fun l ->
